@@ -458,13 +458,14 @@ func c12Invalid(e *core.Env, rep *core.Report, bin, root string) {
 			invs = append(invs, inv{lvl, l, "unknown setting or malformed value"})
 		}
 	}
-	for _, l := range []string{"map", "map A B C", "map A.B", "map A B.C", "ignore", "enum:map A", "enum:map A B C", "enum:map A @nope", "enum:transform bogus x", "autoMap", "autoMap A B", "update", "update a b", "context", "context a b", "default", "default Nope", "map V V | Nope"} {
+	for _, l := range []string{"map", "map A B C", "map A.B", "map A B.C", "ignore", "enum:map A", "enum:map A B C", "enum:map A @nope", "enum:transform bogus x", "autoMap", "autoMap A B", "update", "update a b", "context", "context a b", "default", "default Nope", "map V V | Nope", "map V V | vcase/w/nosuchpkg:F", "default Zzz.*"} {
 		if l == "ignore" {
 			continue // empty ignore is not judged
 		}
 		invs = append(invs, inv{"method", l, "malformed method setting"})
 	}
-	for _, l := range []string{"name", "name A B", "output:file", "output:file a b", "output:format", "output:format bogus", "output:format struct function", "output:package a b", "extend Nope", "extend (", "enum:exclude (", "output:format assign-variable"} {
+	for _, l := range []string{"name", "name A B", "output:file", "output:file a b", "output:format", "output:format bogus", "output:format struct function", "output:package a b", "extend Nope", "extend (", "enum:exclude (", "output:format assign-variable",
+		"extend Zzz.*", "extend vcase/w/...:F", "extend vcase/w/nosuchpkg:F", "extend p:"} {
 		invs = append(invs, inv{"converter", l, "malformed converter setting"})
 	}
 	// conflicts
